@@ -1,7 +1,7 @@
 SPECIFICATION Spec
 CONSTANTS
-  Values = {"a", "b", "nan"}
-  MaxOps = 7
+  Mode = "f64"
+  MaxOps = 6
   Emit = TRUE
 INVARIANT AppendFresh
 INVARIANT Dense
